@@ -1703,11 +1703,123 @@ def configs(tier):
         for f in range(nops):
             cfgs.append({'kind': 'hist', 'space': spec, 'lay': lay, 'depth': depth, 'first': f,
                          'tier': tier})
+    # distinct product-space elements that SHARE some of their part objects (an element built
+    # from the parts of another one): identity aliasing on the level of the parts
+    for sname in ('rn3^2', 'rn2^3', 'rn2xrn3xrn2', '(rn2^2)^2', 'ud3^2', 'cn2^3', 'rn120^2'):
+        for op in ('assign', 'lincomb1', 'lincomb', 'add', 'multiply', 'divide'):
+            cfgs.append({'kind': 'sharedpart', 'space': sname, 'op': op, 'tier': tier})
     return cfgs
 
 
+def _sp_space(name):
+    return {'rn3^2': lambda: odl.rn(3) ** 2, 'rn2^3': lambda: odl.rn(2) ** 3,
+            'rn2xrn3xrn2': lambda: odl.ProductSpace(odl.rn(2), odl.rn(3), odl.rn(2)),
+            '(rn2^2)^2': lambda: (odl.rn(2) ** 2) ** 2,
+            'ud3^2': lambda: odl.uniform_discr(0, 1, 3) ** 2, 'cn2^3': lambda: odl.cn(2) ** 3,
+            'rn120^2': lambda: odl.rn(120) ** 2}[name]()
+
+
+def _sp_flat(x):
+    if isinstance(x.space, odl.ProductSpace):
+        return np.concatenate([_sp_flat(xi) for xi in x])
+    return np.array(x.asarray(), copy=True).ravel()
+
+
+def run_sharedpart(cfg):
+    """out, x (and y) are different elements of a product space; every non-empty proper subset of
+    the positions holds the SAME part object in out and x (for the two-operand forms also in out
+    and y).  The result must be the entry-wise one computed from copies taken before the call;
+    parts of the operands that are not parts of out must be unchanged."""
+    sp = _sp_space(cfg['space'])
+    n = len(sp)
+    cplx = np.issubdtype(sp[0].dtype if not isinstance(sp[0], odl.ProductSpace)
+                         else sp[0][0].dtype, np.complexfloating)
+    V = np.array([-2.0, -0.5, 0.0, 1.0, 3.0, 0.5, 2.0])
+
+    def fill(part_space, seed):
+        if isinstance(part_space, odl.ProductSpace):
+            return part_space.element([fill(p, seed + 3 * i + 1) for i, p in enumerate(part_space)])
+        m = int(np.prod(part_space.shape))
+        a = V[(np.arange(m) * (seed % 5 + 1) + seed) % len(V)]
+        if cplx:
+            a = a + 1j * V[(np.arange(m) + 2 * seed + 1) % len(V)]
+        return part_space.element(a.reshape(part_space.shape))
+    op = cfg['op']
+    scal = [(1, 0), (2, -1), (0, 1), (-1, 0.5)] if op == 'lincomb' else [(1, 0)]
+    viol, evals, sigs = {}, 0, set()
+    site = '%s(distinct elements sharing part objects)[pspace,%s,%s]' % (
+        {'assign': 'copy_assign', 'lincomb1': 'lincomb', 'lincomb': 'lincomb', 'add': 'add_sub',
+         'multiply': 'elem_mul', 'divide': 'elem_div'}[op], 'complex' if cplx else 'float',
+        'medium' if cfg['space'] == 'rn120^2' else 'small')
+    import itertools as _it
+    subsets = [sub for r in range(1, n) for sub in _it.combinations(range(n), r)]
+    for sub in subsets:
+        for who in (('x',) if op in ('assign', 'lincomb1') else ('x', 'y')):
+            for a, b in scal:
+                xparts = [fill(p, 1 + i) for i, p in enumerate(sp)]
+                yparts = [fill(p, 11 + 2 * i) for i, p in enumerate(sp)]
+                if op == 'divide':
+                    for yp in yparts:            # no zero divisors
+                        yp.lincomb(1, yp, 0, yp)
+                        yp += yp.space.one() * 4
+                oparts = [fill(p, 23 + i) for i, p in enumerate(sp)]
+                src = xparts if who == 'x' else yparts
+                for i in sub:
+                    oparts[i] = src[i]
+                x, y, out = sp.element(xparts), sp.element(yparts), sp.element(oparts)
+                x0, y0 = _sp_flat(x), _sp_flat(y)
+                try:
+                    if op == 'assign':
+                        out.assign(x)
+                        exp = x0
+                    elif op == 'lincomb1':
+                        sp.lincomb(1, x, out=out)
+                        exp = x0
+                    elif op == 'lincomb':
+                        sp.lincomb(a, x, b, y, out=out)
+                        exp = a * x0 + b * y0
+                    elif op == 'add':
+                        sp.lincomb(1, x, 1, y, out=out)
+                        exp = x0 + y0
+                    elif op == 'multiply':
+                        sp.multiply(x, y, out=out)
+                        exp = x0 * y0
+                    else:
+                        sp.divide(x, y, out=out)
+                        exp = x0 / y0
+                except Exception as e:       # noqa
+                    viol.setdefault('raises:' + type(e).__name__,
+                                    'shared positions %s with %s: %r' % (list(sub), who, e))
+                    evals += 1
+                    continue
+                evals += 1
+                got = _sp_flat(out)
+                sigs.add('%s:%d shared of %d' % (op, len(sub), n))
+                if not np.array_equal(got, exp.astype(got.dtype)):
+                    viol.setdefault('result_differs',
+                                    '%s on %s, out shares the part objects at positions %s with %s '
+                                    '(a=%r, b=%r): got %s, entry-wise result from the values before '
+                                    'the call %s' % (op, cfg['space'], list(sub), who, a, b,
+                                                     got.tolist()[:12], exp.tolist()[:12]))
+                # parts of the operands that are not parts of out
+                for nm, parts, before in (('x', xparts, x0), ('y', yparts, y0)):
+                    pos = 0
+                    for i, pt in enumerate(parts):
+                        m = _sp_flat(pt).size
+                        shared = (i in sub and nm == who)
+                        if not shared and not np.array_equal(_sp_flat(pt), before[pos:pos + m]):
+                            viol.setdefault('operand_modified',
+                                            '%s: part %d of %s changed although it is not a part '
+                                            'of out (shared positions %s with %s)'
+                                            % (op, i, nm, list(sub), who))
+                        pos += m
+    return {'evals': evals, 'viol': [{'site': site, 'symptom': k, 'detail': d}
+                                     for k, d in viol.items()],
+            'sig': sorted(sigs) or ['none'], 'trivial': evals == 0}
+
+
 RUNNERS = {'lincomb': run_lincomb, 'arith': run_arith, 'bcast': run_bcast, 'hist': run_hist,
-           'range': run_range, 'overlap': run_overlap}
+           'range': run_range, 'overlap': run_overlap, 'sharedpart': run_sharedpart}
 
 
 def run(cfg):
